@@ -462,6 +462,13 @@ func (s Segment) forRewrite() (*RewriteSegment, error) {
 }
 
 func (src Segment) Rewrite(dropOffsets map[int64]struct{}, params index.Params, mversion message.Version, iversion index.Version) (*RewriteSegment, error) {
+	return src.RewriteLimit(-1, dropOffsets, params, mversion, iversion)
+}
+
+// RewriteLimit is like Rewrite, but only reads the first limit bytes of the log (when limit is not negative).
+// It is used to rewrite a segment that is still being appended to: limit is a size at which the log
+// is known to end with a complete message, anything after it might be a message that is still being written.
+func (src Segment) RewriteLimit(limit int64, dropOffsets map[int64]struct{}, params index.Params, mversion message.Version, iversion index.Version) (*RewriteSegment, error) {
 	dst, err := src.forRewrite()
 	if err != nil {
 		return nil, err
@@ -484,7 +491,7 @@ func (src Segment) Rewrite(dropOffsets map[int64]struct{}, params index.Params, 
 	var srcPosition = srcLog.InitialPosition()
 	var indexTime int64
 	var dstIndex []index.Item
-	for {
+	for limit < 0 || srcPosition < limit {
 		msg, nextSrcPosition, err := srcLog.Read(srcPosition)
 		if err != nil {
 			if errors.Is(err, io.EOF) {
